@@ -266,7 +266,9 @@ impl Local {
             report.add(&k, v);
         }
         report.evals(std::mem::take(&mut self.evals));
-        for h in std::mem::take(&mut self.distinct) {
+        let distinct = std::mem::take(&mut self.distinct);
+        crate::proc::record_distinct(&distinct);
+        for h in distinct {
             report.distinct_hash(h);
         }
     }
